@@ -921,6 +921,10 @@ def run(ctx):
                 lp = loops[0]
                 lvars = set(pattern_bindings(lp["pat"]))
                 bguards = [id(x["node"]) for x in hirq.guards(g, bc)]
+                # a body that reports false (an error in its block) ends the foreach with false, so the caller's block stops too
+                fx = false_exit(g, lp, bc)
+                ctx.ob("R08.5", site_key(g, "a false body ends the foreach with false", i), fx is not None, line_of(bc),
+                       "`return false` under the negated body call: %s" % ("line %s" % line_of(fx) if fx is not None else "none (a `break` or nothing)"))
 
                 def setter(pname):
                     out = []
